@@ -1274,13 +1274,17 @@ class KVDef(EntAttribute):
             # This has to be present.
             default = '0'
 
+        if self._type is not ValueTypes.SPAWNFLAGS and not (self.disp_name or default or self.desc):
+            # A lone colon swallows the following line when parsed, an explicit empty name is required.
+            file.write('""')
+
         if default:
             default_str = str(default)
             # We can write unquoted integers, but nothing else.
             if all(x in '0123456789-' for x in default_str):
                 file.write(' : ' + default_str)
             else:
-                file.write(f' : "{default_str}"')
+                file.write(f' : "{_fgd_escape(custom_syntax, default_str)}"')
             if self.desc:
                 file.write(' : ')
         else:
@@ -1316,10 +1320,18 @@ class KVDef(EntAttribute):
                         float(value)
                     except ValueError:
                         value = f'"{value}"'
+                    else:
+                        # float() also accepts signs and surrounding whitespace, which do not survive as a bare token.
+                        if value[:1] == '+' or value != value.strip():
+                            value = f'"{value}"'
 
                     file.write(f'\t\t{value}: ')
                     # Newlines aren't functional here, just replace.
-                    _write_longstring(file, False, name.replace('\n', ' '), indent='\t\t')
+                    if name:
+                        _write_longstring(file, False, name.replace('\n', ' '), indent='\t\t')
+                    else:
+                        # Nothing after the colon would swallow the next line.
+                        file.write('""')
                     if tags and custom_syntax:
                         file.write(f' [{", ".join(sorted(tags))}]\n')
                     else:
@@ -2123,7 +2135,8 @@ class EntityDef:
         # Make it look pretty: BaseClass
         file.write(f'@{self.type.value.title().replace("class", "Class")} ')
         if self.bases:
-            file.write('base(')
+            # aliasof() is an extension, with standard syntax it is just a base.
+            file.write('aliasof(' if self.is_alias and custom_syntax else 'base(')
             file.write(', '.join([
                 (base.classname if isinstance(base, EntityDef) else base)
                 for base in self.bases
